@@ -360,12 +360,8 @@ def gen_cases(chk):
 
 def main(tier):
     chk = Check(PROP, tier)
-    ok, out = gen_tables(["Whitespace"])
-    if not ok:
-        chk.violation("tie", "table generation from /repo failed: " + out[-400:], {"kind": "gen"}, {"log": out}, no_input=True)
-        return chk.finish()
-    pr = chk.proofs("Props/C01.v")
-    okm, logm = build_model("c01", "Extract/ExC01.v", "run_C01")
+    pr = chk.proofs("Props/C01.v", tables=TABLES)
+    okm, logm = build_model("c01", "Extract/ExC01.v", "run_C01", tables=TABLES)
     if not okm:
         chk.violation("tie", "model does not build: " + logm[-400:], {"kind": "model-build"}, {"log": logm[-3000:]}, no_input=True)
         return chk.finish()
